@@ -335,11 +335,11 @@ def oracle_c04(s_text, view_s: obs.AttrView, op, outcome, expectation, canonical
             out.append(("neighbour-comment-removed", f"comments {[c[1] for c in lost_items]} dropped by an insertion; output {r!r}"))
         parent = view_s.tree if d == 0 else (view_s.layers[len(view_s.layers) - d] if 0 < d <= len(view_s.layers) else {})
         for nm in names[:-1]:
-            ent = parent.get(nm) if isinstance(parent, dict) else None
-            parent = ent[1] if ent and ent[0] == "set" else None
-            if parent is None:
-                break
-        into_empty = parent is not None and len(parent) == 0  # an empty set has no layout to preserve
+            ent = parent.get(nm)
+            if not (ent and ent[0] == "set"):
+                break  # the rest of the path is created inside `parent`
+            parent = ent[1]
+        into_empty = len(parent) == 0  # an empty set has no layout to preserve
         if canonical and not out and not into_empty:
             bp, bea, beb = _diff(s_text, r)
             if bea != bp:
